@@ -13,7 +13,7 @@ mod model;
 
 pub const OP_NAMES: &[&str] = &[
     "Submit", "Recv", "Tick", "Update", "Flush", "Deliver", "Drop", "DropAll", "DeliverAll", "Hold", "Broadcast", "Mutate", "Forge",
-    "Junk", "Api", "RecvAll", "ForgeSlice", "ForgeClash", "SubmitBurst", "Churn", "SubmitHuge", "ForgeFat",
+    "Junk", "Api", "RecvAll", "ForgeSlice", "ForgeClash", "SubmitBurst", "Churn", "SubmitHuge", "ForgeFat", "SubmitGiant",
 ];
 pub const K_SUBMIT: u8 = 0;
 pub const K_RECV: u8 = 1;
@@ -37,6 +37,7 @@ pub const K_SUBMITBURST: u8 = 18;
 pub const K_CHURN: u8 = 19;
 pub const K_SUBMITHUGE: u8 = 20;
 pub const K_FORGEFAT: u8 = 21;
+pub const K_SUBMITGIANT: u8 = 22;
 
 pub const UNREL: u8 = 0;
 pub const REL_ORD: u8 = 1;
@@ -170,6 +171,7 @@ pub struct EpModel {
     pub clock_ms: u64,
     pub sent: BTreeMap<u64, (u64, SentInfo)>, // seq -> (sent_at_ms, info)
     pub pend: BTreeSet<u64>,                  // model of the pending-ack set
+    pub pend_nr: usize,                       // number of ranges in `pend`, kept incrementally
     pub handed_seqs: BTreeSet<u64>,           // sequences of genuine packets handed to this endpoint
     pub first_reason: Option<DisconnectReason>,
     pub next_seq: Option<u64>,
@@ -182,6 +184,7 @@ impl EpModel {
             clock_ms: 0,
             sent: BTreeMap::new(),
             pend: BTreeSet::new(),
+            pend_nr: 0,
             handed_seqs: BTreeSet::new(),
             first_reason: None,
             next_seq: None,
